@@ -285,17 +285,22 @@ func (p *Program) Method(rel, typ, name string) *ssa.Function {
 	if n == nil {
 		return nil
 	}
+	var wrapper *ssa.Function
 	for _, T := range []types.Type{types.NewPointer(n), n} {
 		sel := p.Prog.MethodSets.MethodSet(T).Lookup(n.Obj().Pkg(), name)
 		if sel != nil {
 			fn := p.Prog.MethodValue(sel)
 			if fn != nil {
-				// unwrap promoted-method wrappers: we want the declared function
-				return fn
+				if fn.Synthetic == "" {
+					return fn // the declared function
+				}
+				if wrapper == nil {
+					wrapper = fn
+				}
 			}
 		}
 	}
-	return nil
+	return wrapper
 }
 
 // Global returns the ssa.Global for a package-level var.
